@@ -137,6 +137,15 @@ pub trait Prop {
         None
     }
     fn check(case: &Self::Case, obs: &mut Obs) -> Verdict;
+    /// (proptest shrink iterations, greedy post-shrink candidate evaluations)
+    /// for a leg; legs with very large cases use a small budget.
+    fn shrink_budget(leg: &str) -> (u32, u32) {
+        if leg.starts_with("huge") {
+            (48, 160)
+        } else {
+            (4000, 6000)
+        }
+    }
     /// Candidate simplifications for the greedy post-shrink (optional).
     fn shrink(_case: &Self::Case) -> Vec<Self::Case> {
         vec![]
@@ -337,9 +346,8 @@ impl Acc {
 
 /// Greedy delta-debugging on top of proptest's shrink: keep taking the first
 /// candidate simplification that still fails, until none does.
-fn post_shrink<P: Prop>(acc: &mut Acc, mut case: P::Case, mut msg: String) -> (P::Case, String) {
+fn post_shrink<P: Prop>(acc: &mut Acc, mut case: P::Case, mut msg: String, mut budget: u32) -> (P::Case, String) {
     acc.frozen = true;
-    let mut budget = 6000_u32;
     'outer: loop {
         for cand in P::shrink(&case) {
             if budget == 0 {
@@ -383,7 +391,7 @@ pub fn worker<P: Prop>(a: &WorkerArgs) -> i32 {
             let config = Config {
                 cases,
                 failure_persistence: None,
-                max_shrink_iters: 4000,
+                max_shrink_iters: P::shrink_budget(&a.leg).0,
                 max_global_rejects: 100_000,
                 ..Config::default()
             };
@@ -401,7 +409,7 @@ pub fn worker<P: Prop>(a: &WorkerArgs) -> i32 {
                 Err(TestError::Fail(reason, minimal)) => {
                     let mut acc = acc.borrow_mut();
                     let (minimal, msg) =
-                        post_shrink::<P>(&mut acc, minimal, reason.message().to_string());
+                        post_shrink::<P>(&mut acc, minimal, reason.message().to_string(), P::shrink_budget(&a.leg).1);
                     acc.res.failure = Some(serde_json::to_value(&minimal).unwrap());
                     acc.res.failure_message = msg;
                 }
@@ -422,7 +430,7 @@ pub fn worker<P: Prop>(a: &WorkerArgs) -> i32 {
                 let mut acc = acc.borrow_mut();
                 acc.res.enumerated += 1;
                 if let Err(m) = acc.run_case::<P>(&case) {
-                    let (minimal, msg) = post_shrink::<P>(&mut acc, case, m);
+                    let (minimal, msg) = post_shrink::<P>(&mut acc, case, m, P::shrink_budget(&a.leg).1);
                     acc.res.failure = Some(serde_json::to_value(&minimal).unwrap());
                     acc.res.failure_message = msg;
                     break;
@@ -606,7 +614,7 @@ pub fn run<P: Prop>(tier: Tier) -> i32 {
         std::env::var("GV_WORKER_TIMEOUT_S")
             .ok()
             .and_then(|s| s.parse().ok())
-            .unwrap_or(tier.pick(900, 6 * 3600)),
+            .unwrap_or(tier.pick(600, 6 * 3600)),
     );
 
     let _ = std::fs::remove_dir_all(verif_root().join("work").join("violations").join(id));
